@@ -949,7 +949,7 @@ def witnesses():
 def main(tier, seed):
     t0 = time.time()
     proof = framework.proof_stage(PID, MODULE, THEOREMS, tier)
-    nshards, per = (16, 90) if tier == "quick" else (64, 300)
+    nshards, per = (16, 90) if tier == "quick" else (64, 220)
     run = framework.run_shards("c08", "run_shard", PID, seed, nshards, per, tier)
     run["findings"] = witnesses() + run["findings"]
 
